@@ -19,6 +19,17 @@ package main
 //	stale:0|1[:av]    cut; reader parked before its cancel loop (gate disc.cancel); a Call detects
 //	                  the loss, redials and succeeds; (1: a second call with a blocked handler is
 //	                  issued on the new connection;) then the old reader is released
+//	lockq:r|w 0|1[:av] lock-queue schedules of redialForClient (the de-duplication must happen UNDER s.lock):
+//	                  r: cut; the reader is parked INSIDE redialForClient holding s.lock (gate
+//	                  redial.locked); a Call detects the loss by its status check, enters
+//	                  redialForClient and blocks acquiring s.lock (seen in its goroutine stack); the
+//	                  reader is released and runs its round; the writer obtains the lock next and is
+//	                  parked at its own redial.locked gate until the reader has finished;
+//	                  w: mirrored — reader parked at disc.redial, the Call is parked inside
+//	                  redialForClient holding the lock, the reader is released and blocks on the lock,
+//	                  the writer runs its round, the reader obtains the lock and is parked at the gate;
+//	                  1: while the queued party holds the lock at the gate a second call (handler
+//	                  blocked) is issued on the re-established connection; then the queued party runs
 //	setid             SetID("u13")
 //
 // av = availability of the server for the following dial attempts: a string over u (up), d (dial
@@ -156,6 +167,8 @@ type c13Case struct {
 	userID     bool
 	upAtStart  bool
 	hubTainted bool
+	lqFirstOK  bool // lockq: the lock holder's round re-established the connection
+	lqExtra    bool // lockq: a call was issued on the re-established connection
 }
 
 func c13Goid() int64 {
@@ -317,6 +330,31 @@ func (c *c13Case) waitArrived(key string) bool {
 		c.mu.Lock()
 		defer c.mu.Unlock()
 		return c.arrived[key]
+	})
+	if !ok {
+		c.hung = true
+	}
+	return ok
+}
+
+// waitQueued waits until a goroutine of the given kind (a frame of its stack) is blocked acquiring
+// s.lock inside redialForClient.
+func (c *c13Case) waitQueued(frame string) bool {
+	ok := waitUntil(c13Watchdog, func() bool {
+		for _, g := range c13Stacks() {
+			if !strings.Contains(g, "erpc/v6.(*session).redialForClient(") || !strings.Contains(g, frame) ||
+				!strings.Contains(g, "sync.(*RWMutex).Lock(") {
+				continue
+			}
+			hdr := g
+			if i := strings.IndexByte(g, '\n'); i >= 0 {
+				hdr = g[:i]
+			}
+			if strings.Contains(hdr, "[semacquire") || strings.Contains(hdr, "[sync.") {
+				return true
+			}
+		}
+		return false
 	})
 	if !ok {
 		c.hung = true
@@ -677,6 +715,113 @@ func (c *c13Case) step(st string) string {
 			c.quiesce()
 		}
 		return r1 + "," + r2
+	case "lockq":
+		c.setAv(arg(2))
+		c.lqFirstOK, c.lqExtra = false, false
+		mode := arg(1)
+		if len(mode) != 2 {
+			return "bad-step"
+		}
+		if !c.live() {
+			r := c.asyncCall("/c13h/echo").result(c)
+			c.quiesce()
+			return r + ",-"
+		}
+		if c.budget == 0 {
+			// no redial function: redialForClient returns before the lock; plain loss, then a call
+			c.cutLive()
+			c.quiesce()
+			r := c.asyncCall("/c13h/echo").result(c)
+			c.quiesce()
+			return r + ",-"
+		}
+		var k *c13Call
+		var qch chan struct{} // the queued party, parked at its redial.locked gate with the lock
+		r1 := ""
+		if mode[0] == 'r' {
+			rch := c.arm("r:redial.locked")
+			c.cutLive()
+			if !c.waitArrived("r:redial.locked") {
+				c.unparkCh(rch)
+				return "hang"
+			}
+			qch = c.arm("w:redial.locked")
+			k = c.asyncCall("/c13h/echo")
+			if !c.waitQueued("(*session).AsyncCall(") {
+				c.unparkCh(rch)
+				c.unparkCh(qch)
+				return "hang"
+			}
+			c.unparkCh(rch)
+			if !c.waitArrived("w:redial.locked") {
+				c.unparkCh(qch)
+				return "hang"
+			}
+			c.quiesce() // the reader finishes (exit, or PassiveClosed + notification after a failed round)
+		} else {
+			rch := c.arm("r:disc.redial")
+			c.cutLive()
+			if !c.waitArrived("r:disc.redial") {
+				c.unparkCh(rch)
+				return "hang"
+			}
+			wch := c.arm("w:redial.locked")
+			k = c.asyncCall("/c13h/echo")
+			if !c.waitArrived("w:redial.locked") {
+				c.unparkCh(rch)
+				c.unparkCh(wch)
+				return "hang"
+			}
+			qch = c.arm("r:redial.locked")
+			c.unparkCh(rch)
+			if !c.waitQueued("(*session).readDisconnected(") {
+				c.unparkCh(wch)
+				c.unparkCh(qch)
+				return "hang"
+			}
+			c.unparkCh(wch)
+			if !c.waitArrived("r:redial.locked") {
+				c.unparkCh(qch)
+				return "hang"
+			}
+			r1 = k.result(c) // the writer's call completes on the connection it established
+			c.quiesce()
+		}
+		c.lqFirstOK = c.live()
+		r2 := "-"
+		var k2 *c13Call
+		if mode[1] == '1' && c.live() {
+			c.lqExtra = true
+			k2 = c.asyncCall("/c13h/block")
+			if !k2.waitRet(c) {
+				c.unparkCh(qch)
+				return "hang"
+			}
+			if !k2.doneNow() && !c.waitEntered() {
+				c.unparkCh(qch)
+				return "hang"
+			}
+			c.quiesce()
+		}
+		c.unparkCh(qch)
+		if r1 == "" {
+			r1 = k.result(c)
+		}
+		c.quiesce()
+		if k2 != nil {
+			if k2.doneNow() {
+				r2 = c13Class(k2.cmd.Status())
+			} else {
+				r2 = "pend" // nothing was lost on its connection and the handler is still blocked
+			}
+		}
+		c.releaseHandlers()
+		c.quiesce()
+		if k2 != nil && r2 == "pend" {
+			r2 = "pend>" + k2.result(c)
+			c.quiesce()
+		}
+		return r1 + "," + r2
 	}
 	return "bad-step"
 }
@@ -907,6 +1052,23 @@ func c13Oracles(c *c13Case, line, st, res, o string, before int32, out *hx.Out) 
 				"c13:stale-disconnect-cancels-new-calls")
 		}
 	}
+	// one loss ⇒ one redial: the party that queued on s.lock behind a redial that re-established
+	// the connection must not dial again, and nothing issued on the new connection is cancelled
+	if kind == "lockq" && c.lqFirstOK {
+		rs := strings.Split(res, ",")
+		if len(rounds) != 1 || status != 1 {
+			out.Violate(line, "single-redial", fmt.Sprintf("one connection loss, the redial of the lock holder re-established the connection, yet %d redial rounds ran (dial hooks %q) and the session is in status %d: %s",
+				len(rounds), logStep, status, o), "c13:single-redial")
+		}
+		if len(rs) == 2 && rs[0] != "ok" {
+			out.Violate(line, "single-redial", "the call that detected the loss and queued on the session lock ended with "+rs[0]+" although the connection was re-established: "+o,
+				"c13:single-redial:queued-call-fails")
+		}
+		if len(rs) == 2 && c.lqExtra && rs[1] != "pend>ok" {
+			out.Violate(line, "single-redial", "a call issued on the re-established connection (no further loss) ended with "+rs[1]+": "+o,
+				"c13:single-redial:new-call-cancelled")
+		}
+	}
 	// the session ended (budget exhausted): notification, index
 	ended := status == 7 || status == 5
 	if ended && len(rounds) > 0 {
@@ -938,7 +1100,7 @@ func c13StepAv(st string) string {
 	f := strings.Split(st, ":")
 	i := 1
 	switch f[0] {
-	case "wdet", "race", "stale":
+	case "wdet", "race", "stale", "lockq":
 		i = 2
 	case "setid":
 		return ""
@@ -988,6 +1150,14 @@ func c13Gen(r *hx.R, tier string, out *hx.Out) []string {
 		"c13 b=3 werr=eof steps=wdet:-1:u,call,wdet:3:u,call",
 		"c13 b=3 werr=pipe steps=wdet:-1:u,call,wdet:3:u,call",
 		"c13 b=1 werr=eof steps=wdet:-1:u,call:ddd,call:u",
+		"c13 b=3 werr=pipe steps=lockq:r1:u,call",
+		"c13 b=3 werr=pipe steps=lockq:w1:u,call",
+		"c13 b=3 werr=pipe steps=lockq:r0:du,call,lockq:w0:hu,call",
+		"c13 b=1 werr=pipe steps=lockq:r1:ddd,call:u",
+		"c13 b=1 werr=pipe steps=lockq:w1:ddd,call:u",
+		"c13 b=1 werr=eof steps=lockq:w1:hhu,call:u,lockq:r1:hhu,call:u",
+		"c13 b=0 werr=pipe steps=lockq:r1:u,call",
+		"c13 b=-1 werr=eof steps=setid,lockq:r1:ddhu,lockq:w1:u,call",
 	}
 	n := 150
 	if tier == "thorough" {
@@ -1005,7 +1175,7 @@ func c13Gen(r *hx.R, tier string, out *hx.Out) []string {
 		for j := 0; j < ns; j++ {
 			fail := r.Intn(5) == 0
 			av := c13Av(r, budget, fail)
-			switch r.Intn(12) {
+			switch r.Intn(15) {
 			case 0, 1:
 				if r.Intn(2) == 0 {
 					steps = append(steps, "call")
@@ -1026,6 +1196,8 @@ func c13Gen(r *hx.R, tier string, out *hx.Out) []string {
 				steps = append(steps, fmt.Sprintf("stale:%d:%s", r.Intn(2), av))
 			case 11:
 				steps = append(steps, "setid")
+			case 12, 13, 14:
+				steps = append(steps, fmt.Sprintf("lockq:%s%d:%s", []string{"r", "w"}[r.Intn(2)], r.Intn(2), av))
 			}
 		}
 		// end with a call while the server is up: "later calls succeed"
